@@ -384,7 +384,7 @@ _BUILTIN_IMPL = {
     "str": _str,
     "repr": lambda it, v: it.format_value(v, 114),
     "callable": _callable,
-    "list": lambda it, xs=(): list(it.iterate(xs)),
+    "list": lambda it, xs=(): ListTerm(xs.t) if isinstance(xs, ListTerm) else list(it.iterate(xs)),
     "tuple": lambda it, xs=(): tuple(it.iterate(xs)),
     "set": lambda it, xs=(): make_set(it, it.iterate(xs)),
     "frozenset": lambda it, xs=(): make_set(it, it.iterate(xs), frozen=True),
@@ -642,7 +642,54 @@ def sym_index(it, o, k):
     raise Unsupported("symbolic index into concrete sequence")
 
 
+mk_tuple2 = z3.Function("mk_tuple2", Val, Val, Val)
+mk_tuple3 = z3.Function("mk_tuple3", Val, Val, Val, Val)
+HOLE = z3.Const("HOLE", Val)  # the bound variable of seq_map terms
+from .sym import Log as _Log, log_nil as _nil, log_snoc as _snoc, log_cat as _cat  # noqa: E402
+seq_map = z3.Function("seq_map", _Log, Val, _Log)         # map (lambda HOLE. body) over a list term
+seq_val = z3.Function("seq_val", _Log, Val)               # a list term used as a value
+lt_nonempty = z3.Function("lt_nonempty", _Log, z3.BoolSort())
+
+
+def enc(it, v):
+    """Encode an engine value as a Val term (tuples structurally, list terms via seq_val)."""
+    if isinstance(v, tuple) and len(v) == 2:
+        return mk_tuple2(enc(it, v[0]), enc(it, v[1]))
+    if isinstance(v, tuple) and len(v) == 3:
+        return mk_tuple3(enc(it, v[0]), enc(it, v[1]), enc(it, v[2]))
+    if isinstance(v, ListTerm):
+        return seq_val(v.t)
+    if isinstance(v, SymSeq) and getattr(v, "term", None) is not None:
+        return seq_val(v.term)
+    return it.to_val(v)
+
+
+def listterm_of(it, v):
+    if isinstance(v, ListTerm):
+        return v.t
+    if isinstance(v, SymSeq):
+        t = getattr(v, "term", None)
+        if t is None:
+            raise Unsupported(f"symbolic sequence {v.name} has no term")
+        return t
+    if isinstance(v, (list, tuple)):
+        t = _nil
+        for x in v:
+            t = _snoc(t, enc(it, x))
+        return t
+    raise Unsupported("listterm_of " + type(v).__name__)
+
+
 def symseq_attr(it, o, name):
+    if isinstance(o, ListTerm):
+        if name == "append":
+            def app(it_, a, k):
+                o.t = _snoc(o.t, enc(it_, a[0]))
+            return SummaryFn("ListTerm.append", app)
+        if name == "extend":
+            def ext(it_, a, k):
+                o.t = _cat(o.t, listterm_of(it_, a[0]))
+            return SummaryFn("ListTerm.extend", ext)
     raise Unsupported(f"attribute {name} of symbolic sequence")
 
 
@@ -663,18 +710,32 @@ def symbolic_listcomp(it, node, env, seq):
     # the guard and element are evaluated lazily per index by re-interpreting the comprehension body;
     # conditions must be side-effect free (they are pure predicate calls in ptera)
     def guard(i):
+        if seq.guard is not None:
+            g0 = seq.guard(i)
+            if not (g0 if isinstance(g0, bool) else it.ctx.decide(g0)):
+                return False
         cenv = build(i)
-        ts = [seq.guard(i)] if seq.guard is not None else []
         for c in g.ifs:
-            t = it.truth_term(it.eval(c, cenv))
-            ts.append(z3.BoolVal(t) if isinstance(t, bool) else t)
-        return z3.And(*ts) if ts else z3.BoolVal(True)
+            if not it.truth(it.eval(c, cenv)):  # forks on the real filter expression
+                return False
+        return True
 
     def elem(i):
         cenv = build(i)
         return it.eval(node.elt, cenv)
 
-    return SymSeq(f"comp({seq.name})", seq.n, elem, guard if (g.ifs or seq.guard is not None) else None)
+    out = SymSeq(f"comp({seq.name})", seq.n, elem, guard if (g.ifs or seq.guard is not None) else None)
+    base_t = getattr(seq, "term", None)
+    if base_t is not None and not g.ifs and seq.guard is None:
+        # canonical term: map (lambda HOLE. elt) over the base list
+        cenv = Env(parent=env, module=env.module)
+        cenv.cls = env.cls
+        it.assign(g.target, SVal(HOLE), cenv)
+        try:
+            out.term = seq_map(base_t, enc(it, it.eval(node.elt, cenv)))
+        except Unsupported:
+            out.term = None
+    return out
 
 
 def native_base_init(it, o, own, args, kwargs):
@@ -754,6 +815,7 @@ def call_native(it, fn, args, kwargs):
         if issubclass(fn, BaseException):
             return fn(*[a if not isinstance(a, Sym) else "<sym>" for a in args])
         if fn is collections.defaultdict:
+            args = [getattr(_b, a.name) if isinstance(a, SummaryFn) and hasattr(_b, a.name) else a for a in args]
             return collections.defaultdict(*args)
         if fn is collections.Counter and not args:
             return collections.Counter()
